@@ -66,6 +66,7 @@ STRETCH_SHAPES = [
     ('%s("m0"/{P}, "m1"/Byte)', lambda e: e + b'\x77', 2),
     ('%s("m0"/Byte, "m1"/{P}, "m2"/{P}, "m3"/Int16ub)', lambda e: b'\x11' + e + e + b'\x22\x33', 4),
     ('%s("m0"/Hex({P}), "m1"/Byte)', lambda e: e + b'\x78', 2),
+    ('%s("m0"/Struct("p"/{P}), "m1"/Byte)', lambda e: e + b'\x79', 2),
 ]
 
 
